@@ -10,6 +10,9 @@ fn rand_varint(r: &mut Rng) -> Vec<u8> {
         3 => r.pick(&overlong_varints()).clone(),
         4 => { let k = 1 + r.below(12); let mut v: Vec<u8> = (0..k).map(|_| r.next() as u8 | 0x80).collect(); *v.last_mut().unwrap() &= 0x7F; v }
         5 => { let k = 1 + r.below(4); (0..k).map(|_| 0x80 | r.next() as u8).collect() }     // unterminated
+        6 | 7 => { // exactly ten bytes: nine continuation bytes and a boundary-valued last byte (the u64 overflow guard)
+            let mut v: Vec<u8> = (0..9).map(|_| if r.bool() { 0x80 } else { 0x80 | r.next() as u8 }).collect();
+            v.push(*r.pick(&[0u8, 1, 2, 3, 0x7F, 0x80, 0x81, 0x82])); if *v.last().unwrap() >= 0x80 { v.push(r.below(3) as u8) } v }
         _ => uleb(zz64(r.range(-70000, 70000))),
     }
 }
@@ -92,7 +95,7 @@ fn avro_longs_input(r: &mut Rng) -> (Vec<u8>, String) {
     for _ in 0..r.below(4) {
         let n = r.below(5);
         let mut data = Vec::new();
-        for _ in 0..n { if r.chance(1, 10) { data.extend(rand_varint(r)); } else { data.extend(uleb(zz64(r.next() as i64 >> r.below(64)))) } }
+        for _ in 0..n { if r.chance(1, 4) { data.extend(rand_varint(r)); } else { data.extend(uleb(zz64(r.next() as i64 >> r.below(64)))) } }
         let mut count = n as i64; let mut size = data.len() as i64;
         // the mutations that park the reader in its no-progress loop (model: RHang) cost a watchdog period each: keep them rare
         match r.below(70) { 0..=4 => { count += 1; tag += "cnt+ " } 5 => { count -= 1; tag += "cnt- " } 6 => { count = 0; tag += "cnt0 " } 7 => { size += 1; tag += "sz+ " } 8..=12 => { size -= 1; tag += "sz- " } 13..=17 => { count = -count - 1; tag += "cntneg " } 18..=22 => { size = -1; tag += "szneg " } _ => {} }
